@@ -166,6 +166,25 @@ func (b *builder) imp(name string) gen.Expr {
 	return &gen.Import{Name: name}
 }
 
+// exprCond wraps an import of t in expression-level control flow (short-circuit operator or an arm of ?:)
+// under condition c: whether the import executes is decided while the expression is evaluated.
+func (b *builder) exprCond(t string, c gen.Expr) gen.Expr {
+	var im gen.Expr
+	b.in("cond", func() { im = b.imp(t) })
+	b.classes["expr-conditional"] = true
+	switch rapid.IntRange(0, 4).Draw(b.rt, "exprcond") {
+	case 0:
+		return bin("&&", c, im)
+	case 1:
+		return bin("||", c, im)
+	case 2:
+		return &gen.Cond{C: c, A: im, B: num(0)}
+	case 3:
+		return &gen.Cond{C: c, A: num(0), B: im}
+	}
+	return &gen.ArrayLit{Elems: []gen.Expr{bin("&&", c, im), num(1)}}
+}
+
 func (b *builder) pick(label string, xs []string) string {
 	return xs[rapid.IntRange(0, len(xs)-1).Draw(b.rt, label)]
 }
@@ -284,6 +303,11 @@ func (b *builder) buildModule(i int) {
 				}
 			}
 		case 1: // eager under a data condition
+			if b.chance("exprcond", 35) {
+				t := b.fresh("t")
+				body = append(body, def(t, b.exprCond(dep, b.modCond())), logS(call(id("typeName"), id(t))))
+				break
+			}
 			var blk []gen.Stmt
 			c := b.modCond()
 			b.in("cond", func() {
@@ -661,6 +685,12 @@ func (b *builder) action(depth int) []gen.Stmt {
 				return []gen.Stmt{push(call(id(f.name), b.loopCount()))}
 			}})
 		}
+	}
+	if am := b.allMods(); len(am) > 0 {
+		acts = append(acts, act{3, func() []gen.Stmt { // import decided by expression-level control flow
+			w := b.fresh("w")
+			return []gen.Stmt{def(w, b.exprCond(b.pick("t", am), b.mainCond())), push(call(id("typeName"), id(w)))}
+		}})
 	}
 	// modules without return value
 	var noret []string
